@@ -32,6 +32,15 @@ pub struct CliOut {
     pub wall_ms: u64,
 }
 
+/// "a non-empty diagnostic is produced": stdout holds something, and it does not begin with what only a running program
+/// prints (a marker, a print header, a register dump, the stepping chatter).  The wording is the emulator's business.
+pub fn looks_like_diagnostic(stdout: &str) -> bool {
+    let first = stdout.lines().map(|l| l.trim()).find(|l| !l.is_empty()).unwrap_or("");
+    !first.is_empty()
+        && !first.starts_with('!')
+        && !["Output of line", "AX : ", "About to execute", "Int 3 at", ">>> ", "Trap flag", "OF : "].iter().any(|p| first.starts_with(p))
+}
+
 /// an exit status the emulator chose itself (see `CliOut::clean`)
 pub fn own_exit(code: i32) -> bool {
     (0..=100).contains(&code)
